@@ -76,8 +76,7 @@ var families = []family{
 	{"wfailq/mgr/move+insertV", wfailqMgrLine, true, "S=ok R2=ok"},
 	{"wfailq/mgr/insert+delete", wfailqMgrLine, true, "S=ok R2=ok"},
 	{"wfailq/mgr/any", wfailqMgrLine, true, "S=ok R2=ok"},
-	// the reader found the object write-held or, after the rolled-back writer gave it up, scrapped and out of the map:
-	// either way it works on a fresh one
+	// the reader had looked the object up; after the rolled-back writer gave it up it finds it scrapped: temporary cold object
 	{"wfailr/insert", wfailrLine, true, "S=ok R2=ok"},
 	{"wfailr/any", wfailrLine, true, "S=ok R2=ok"},
 	{"wokq/any", "shared | beginW 2 ; access 2 0 ; put 2 0 7 ; commit 2 ; beginW 3 ; finish 2 ; access 3 0 ; put 3 0 8 ; commit 3 ; finish 3 ; beginR 4 ; access 4 0 ; read 4 0 7 ; read 4 0 8 ; read 4 0 2 ; leave 4 0 ; backfill 4 7 ; backfill 4 8 ; end 4 | R2=4", true, "R2=ok"},
@@ -90,12 +89,13 @@ var families = []family{
 // the cold search registers and read-locks its new object in one step, the writer waits for it
 const coldraceLine = "shared | beginR 1 ; access 1 0 ; beginW 2 ; read 1 0 1 ; read 1 0 2 ; leave 1 0 ; end 1 ; access 2 0 ; put 2 0 7 ; commit 2 ; finish 2 ; beginR 4 ; access 4 0 ; read 4 0 7 ; read 4 0 2 ; leave 4 0 ; backfill 4 7 ; end 4 | R=1 R2=4"
 
-// writer 2 (tx 3) has begun; it can take the object only after the rolled-back writer 1 (tx 2) has given it up,
-// and then the map has no object any more: it works on a fresh one
-const wfailqLine = "shared | beginW 2 ; access 2 0 ; put 2 0 7 ; rollback 2 ; beginW 3 ; finish 2 ; access 3 0 ; put 3 0 8 ; commit 3 ; finish 3 ; beginR 4 ; access 4 0 ; read 4 0 7 ; read 4 0 8 ; read 4 0 2 ; leave 4 0 ; backfill 4 8 ; end 4 | R2=4"
-const wfailqMgrLine = "shared | beginW 2 ; access 2 0 ; put 2 0 7 ; rollback 2 ; beginW 3 ; beginR 1 ; access 1 0 ; read 1 0 7 ; read 1 0 2 ; leave 1 0 ; end 1 ; finish 2 ; access 3 0 ; put 3 0 8 ; commit 3 ; finish 3 ; beginR 4 ; access 4 0 ; read 4 0 7 ; read 4 0 8 ; read 4 0 2 ; leave 4 0 ; backfill 4 8 ; end 4 | S=1 R2=4"
+// writer 2 (tx 3) has begun; it can take the object only after the rolled-back writer 1 (tx 2) has given it up
+// (`finish 2`: scrapped and out of the map in one step), finds it scrapped and is sent to a temporary cold object
+// (`cold 3 0` = Label.accessCold); the search after quiescence (tx 4) builds the manager's new object
+const wfailqLine = "shared | beginW 2 ; access 2 0 ; put 2 0 7 ; rollback 2 ; beginW 3 ; finish 2 ; cold 3 0 ; put 3 0 8 ; commit 3 ; finish 3 ; beginR 4 ; access 4 0 ; read 4 0 7 ; read 4 0 8 ; read 4 0 2 ; leave 4 0 ; backfill 4 8 ; end 4 | R2=4"
+const wfailqMgrLine = "shared | beginW 2 ; access 2 0 ; put 2 0 7 ; rollback 2 ; beginW 3 ; beginR 1 ; access 1 0 ; read 1 0 7 ; read 1 0 2 ; leave 1 0 ; end 1 ; finish 2 ; cold 3 0 ; put 3 0 8 ; commit 3 ; finish 3 ; beginR 4 ; access 4 0 ; read 4 0 7 ; read 4 0 8 ; read 4 0 2 ; leave 4 0 ; backfill 4 8 ; end 4 | S=1 R2=4"
 
-const wfailrLine = "shared | beginW 2 ; access 2 0 ; put 2 0 7 ; rollback 2 ; beginR 1 ; finish 2 ; access 1 0 ; read 1 0 7 ; read 1 0 2 ; leave 1 0 ; end 1 ; beginR 4 ; access 4 0 ; read 4 0 7 ; read 4 0 2 ; leave 4 0 ; end 4 | S=1 R2=4"
+const wfailrLine = "shared | beginW 2 ; access 2 0 ; put 2 0 7 ; rollback 2 ; beginR 1 ; finish 2 ; cold 1 0 ; read 1 0 7 ; read 1 0 2 ; leave 1 0 ; end 1 ; beginR 4 ; access 4 0 ; read 4 0 7 ; read 4 0 2 ; leave 4 0 ; end 4 | S=1 R2=4"
 
 func cacheFamily(name string) bool {
 	return strings.HasPrefix(name, "coldrace/") || strings.HasPrefix(name, "wfailq/") || strings.HasPrefix(name, "wokq/") || strings.HasPrefix(name, "wfailr/")
